@@ -54,6 +54,7 @@ type Tr struct {
 	revealed      map[string]bool
 	curMref       string
 	reachCache    map[int]map[int]bool
+	topLoopBodies map[*ssa.Function][]map[int]bool
 	assumeMode    bool // evaluating a clause that is being assumed (loop invariant at the cut, callee postcondition)
 	visitCount    int
 	subTerms      map[string]string
@@ -602,6 +603,11 @@ func (tr *Tr) newFrame(fn *ssa.Function, depth int, top bool) *Frame {
 }
 
 func (fr *Frame) analyzeLoops() {
+	fr.analyzeLoopBodies()
+	fr.orderLoops()
+}
+
+func (fr *Frame) analyzeLoopBodies() {
 	fr.loops = map[*ssa.BasicBlock]*loopInfo{}
 	fn := fr.fn
 	for _, b := range fn.Blocks {
@@ -631,6 +637,9 @@ func (fr *Frame) analyzeLoops() {
 			}
 		}
 	}
+}
+
+func (fr *Frame) orderLoops() {
 	var hs []*ssa.BasicBlock
 	for h := range fr.loops {
 		hs = append(hs, h)
@@ -1383,6 +1392,51 @@ func (tr *Tr) reachOf(b int) map[int]bool {
 				r[p.Index] = true
 				stack = append(stack, p)
 			}
+		}
+	}
+	// Facts emitted while translating the body of a loop describe one arbitrary iteration, which ends in the
+	// invariant-preservation obligations and is then abandoned; the code after the loop continues from the havocked state
+	// at the loop header. For an obligation outside a loop body the facts of that body (header excluded) are therefore
+	// irrelevant and left out (fewer assumptions: sound).
+	if tr.topLoopBodies == nil {
+		tr.topLoopBodies = map[*ssa.Function][]map[int]bool{}
+	}
+	bodies, ok := tr.topLoopBodies[tr.fn]
+	if !ok {
+		tmp := &Frame{fn: tr.fn}
+		tmp.analyzeLoopBodies()
+		for h, li := range tmp.loops {
+			// only loops that are left through their header: a break/return edge out of the body carries body facts along
+			headerOnly := true
+			for bb := range li.body {
+				if bb == h {
+					continue
+				}
+				for _, sx := range bb.Succs {
+					if !li.body[sx] {
+						headerOnly = false
+					}
+				}
+			}
+			if !headerOnly {
+				continue
+			}
+			m := map[int]bool{}
+			for bb := range li.body {
+				if bb != h {
+					m[bb.Index] = true
+				}
+			}
+			bodies = append(bodies, m)
+		}
+		tr.topLoopBodies[tr.fn] = bodies
+	}
+	for _, m := range bodies {
+		if m[b] {
+			continue
+		}
+		for idx := range m {
+			delete(r, idx)
 		}
 	}
 	tr.reachCache[b] = r
